@@ -4,7 +4,7 @@ CONSTANTS
   T = 2
   MaxBlobs = 4
   NSS = {2, 4}
-  LENS = {1, 2, 3, 5, 9}
+  LENS = {1, 2, 3, 5}
   VERS = {0, 1}
   COMPACTS = {0, 1, 2, 3}
   QUERYNS = {2, 3, 4, 5}
